@@ -705,4 +705,6 @@ def run(run: Run):
     run.floor('C01.R6', 5)
     from .common import shared_mechanisms as _shared
     _shared(run, 'C01', 10, ['stored-values', 'addresses'])
+    from .common import shared_mechanisms as _shared_f
+    _shared_f(run, 'C01', 12, ['formulas'])
     return INFO
